@@ -20,8 +20,8 @@ def dispatch (s : DState) (line : String) : DState × String :=
       let (x, o) := engAgg s.agg args
       ({ s with agg := x }, o)
     else if e == "exp" then
-      let (x, o) := engExp s.exp args
-      ({ s with exp := x }, o)
+      let (x, o) := engExp (s.exp, s.expTpls) args
+      ({ s with exp := x.1, expTpls := x.2 }, o)
     else if e == "chk" then
       match args with
       | "ie" :: rest => (s, chkIE rest)
